@@ -438,6 +438,7 @@ def b_isclose(ex, a, b, rel_tol=1e-09, abs_tol=0.0):
 
 
 EXT_HOOKS['math.isclose'] = Builtin('math.isclose', b_isclose)
+EXT_HOOKS['contextlib.suppress'] = Builtin('contextlib.suppress', lambda ex, *classes: ('contextlib.suppress', classes))
 
 
 def external(dotted):
